@@ -20,6 +20,10 @@ type tbSchema struct {
 	feats map[string]int // constructs used (histogram keys)
 	loose int            // declarations drawn without the cell capacity budget
 	grid  bool           // the enumerated grid of widths (seed 0)
+	// builtins: the sized built-in types of the compiled code (UintN, IntN, BitsN, VarUIntegerN) are not the
+	// checked-in ones of package tlb but the output of tlb/parser's type generators for the widths of this
+	// schema (builtins_test.go); widths are then drawn freely
+	builtins bool
 }
 
 var tbPrefixes = []string{"Ab", "Pool", "Msg", "Xq", "Nft", "W5", "Dex", "Jetton", "Storm", "Z"}
@@ -35,6 +39,7 @@ type tbGen struct {
 	held  bool // also draw the constructs held back because of reported findings
 	wide  bool // inside a declaration drawn without the capacity budget: favour wide fields
 	loose map[string]bool
+	any   bool // widths are not limited to the types package tlb ships (schemas compiled with generated built-ins)
 }
 
 // scope is the budget of the cell that is being filled.
@@ -58,6 +63,12 @@ var tbBitsSizes = []int{80, 96, 128, 256, 264, 320, 352, 512}
 var tbDictSizes = []int{8, 16, 32, 64, 256, 8, 32, 256, 1, 7, 23, 128}
 
 func (g *tbGen) width() int {
+	if g.any && g.r.Intn(4) == 0 { // the big.Int form of the integer type generator
+		if g.r.Intn(2) == 0 {
+			return []int{65, 72, 100, 127, 128, 129, 255, 256, 257}[g.r.Intn(9)]
+		}
+		return 65 + g.r.Intn(193)
+	}
 	switch g.r.Intn(4) {
 	case 0:
 		return []int{8, 16, 32, 64}[g.r.Intn(4)]
@@ -65,6 +76,60 @@ func (g *tbGen) width() int {
 		return tbUintEdges[g.r.Intn(len(tbUintEdges))]
 	}
 	return 1 + g.r.Intn(64)
+}
+
+// bitsWidth draws N of bitsN: the sizes package tlb ships, or (any) whole bytes (the generated type is a
+// byte array) and other widths (the generated type is a bit string) alike.
+func (g *tbGen) bitsWidth() int {
+	if !g.any {
+		return tbBitsSizes[g.r.Intn(len(tbBitsSizes))]
+	}
+	switch g.r.Intn(5) {
+	case 0:
+		return 8 * (1 + g.r.Intn(64))
+	case 1:
+		return []int{1, 7, 9, 63, 65, 71, 73, 255, 257, 263, 511}[g.r.Intn(11)]
+	case 2:
+		return tbBitsSizes[g.r.Intn(len(tbBitsSizes))]
+	case 3:
+		return 1 + g.r.Intn(80)
+	}
+	return 1 + g.r.Intn(520)
+}
+
+// dictWidth draws n of (HashmapE n T). The struct generator takes UintN as key type for n <= 64 and BitsN
+// above; only the byte array form of BitsN has the methods of a key type, so above 64 n is a multiple of 8.
+func (g *tbGen) dictWidth() int {
+	if !g.any {
+		return tbDictSizes[g.r.Intn(len(tbDictSizes))]
+	}
+	switch g.r.Intn(4) {
+	case 0:
+		return 1 + g.r.Intn(64)
+	case 1:
+		return 8 * (9 + g.r.Intn(56)) // 72..512
+	case 2:
+		return []int{72, 80, 88, 96, 104, 120, 128, 136, 248, 256, 264, 504, 512}[g.r.Intn(13)]
+	}
+	return tbDictSizes[g.r.Intn(len(tbDictSizes))]
+}
+
+// dict draws a dictionary type. An inline value must fit into a leaf next to the longest label tongo's
+// writer may choose (hml_long: 2 + bitlen(n) + n bits); for the key sizes of package tlb (n <= 256) that is
+// the bound of 700 bits dictValue keeps, for wider keys the value is redrawn until it fits.
+func (g *tbGen) dict() *tlbrun.Type {
+	n := g.dictWidth()
+	v := g.dictValue()
+	if g.any {
+		room := 1023 - 2 - n - 10
+		for i := 0; g.sch.SizeOf(v).MaxBits > room; i++ {
+			v = g.dictValue()
+			if i > 20 {
+				v = &tlbrun.Type{Kind: tlbrun.KBool}
+			}
+		}
+	}
+	return &tlbrun.Type{Kind: tlbrun.KDict, N: n, Args: []*tlbrun.Type{v}}
 }
 
 // simple draws a type without references, parameters or tags on the Go side.
@@ -87,7 +152,7 @@ func (g *tbGen) simple() *tlbrun.Type {
 	case 3, 4:
 		return &tlbrun.Type{Kind: tlbrun.KInt, N: g.width()}
 	case 5:
-		return &tlbrun.Type{Kind: tlbrun.KBits, N: tbBitsSizes[g.r.Intn(len(tbBitsSizes))]}
+		return &tlbrun.Type{Kind: tlbrun.KBits, N: g.bitsWidth()}
 	case 6:
 		n := 1 + g.r.Intn(32)
 		if g.r.Intn(3) == 0 {
@@ -106,6 +171,9 @@ func (g *tbGen) simple() *tlbrun.Type {
 		n := 1 + g.r.Intn(32)
 		if g.r.Intn(2) == 0 {
 			n = []int{16, 32, 1, 2, 7}[g.r.Intn(5)]
+		}
+		if g.any && g.r.Intn(6) == 0 {
+			n = 33 + g.r.Intn(8) // GenerateVarUintTypes takes any maximum
 		}
 		return &tlbrun.Type{Kind: tlbrun.KVarUint, N: n}
 	}
@@ -270,7 +338,7 @@ func (g *tbGen) candidate(last bool, level int) *tlbrun.Type {
 			}
 		case 4:
 			if g.r.Intn(3) == 0 {
-				return &tlbrun.Type{Kind: tlbrun.KMaybe, Args: []*tlbrun.Type{{Kind: tlbrun.KDict, N: tbDictSizes[g.r.Intn(len(tbDictSizes))], Args: []*tlbrun.Type{g.dictValue()}}}}
+				return &tlbrun.Type{Kind: tlbrun.KMaybe, Args: []*tlbrun.Type{g.dict()}}
 			}
 		}
 		return &tlbrun.Type{Kind: tlbrun.KMaybe, Args: []*tlbrun.Type{g.simple()}}
@@ -319,7 +387,7 @@ func (g *tbGen) candidate(last bool, level int) *tlbrun.Type {
 			return &tlbrun.Type{Kind: tlbrun.KEither, Args: []*tlbrun.Type{a, b}}
 		}
 	case 15, 16:
-		return &tlbrun.Type{Kind: tlbrun.KDict, N: tbDictSizes[g.r.Intn(len(tbDictSizes))], Args: []*tlbrun.Type{g.dictValue()}}
+		return g.dict()
 	case 17:
 		if last {
 			return &tlbrun.Type{Kind: tlbrun.KCell}
@@ -486,6 +554,86 @@ func gridTLBSchema() *tbSchema {
 	}
 	list = append(list, &tlbrun.Type{Kind: tlbrun.KNat32}, &tlbrun.Type{Kind: tlbrun.KBool}, &tlbrun.Type{Kind: tlbrun.KCoins, Name: "Coins"},
 		&tlbrun.Type{Kind: tlbrun.KCoins, Name: "Grams"}, &tlbrun.Type{Kind: tlbrun.KAddr})
+	return packGrid(list, false)
+}
+
+// gridBuiltinsSchema is the enumerated case (seed 0) of the schemas that are compiled with generated
+// built-in types: every width the generators of tlb/parser/builtin_generator.go are asked for, as a plain
+// field, as a dictionary value and, where the generated type has the methods of a key type, as a dictionary
+// key: uint/int 1..64 and a ladder of wider ones (big.Int form), (## 1..32), (VarUInteger 1..40), bitsN for
+// every whole number of bytes up to 512 bits (byte array form) and a ladder of other widths (bit string
+// form), HashmapE with every key size 1..64 (key type UintN) and every multiple of 8 in 72..512 (key type
+// BitsN), the value types cycling through all of these forms. Every distinct dictionary type costs compile
+// time (an instantiation of tlb.HashmapE): seed 0 takes a ladder of 21 key sizes, the seed tlbFullGridSeed
+// (thorough tier) all 120.
+const tlbFullGridSeed = 2 // drawn seeds are odd
+
+func gridBuiltinsSchema(seed uint64) *tbSchema {
+	var list []*tlbrun.Type
+	ty := func(k tlbrun.Kind, n int) *tlbrun.Type { return &tlbrun.Type{Kind: k, N: n} }
+	for n := 1; n <= 64; n++ {
+		list = append(list, ty(tlbrun.KUint, n), ty(tlbrun.KInt, n))
+	}
+	for _, n := range []int{65, 72, 100, 127, 128, 129, 200, 255, 256, 257} {
+		list = append(list, ty(tlbrun.KUint, n), ty(tlbrun.KInt, n))
+	}
+	for n := 1; n <= 40; n++ {
+		if n <= 32 {
+			list = append(list, ty(tlbrun.KNat, n))
+		}
+		list = append(list, ty(tlbrun.KVarUint, n))
+	}
+	for n := 8; n <= 512; n += 8 {
+		list = append(list, ty(tlbrun.KBits, n))
+	}
+	for _, n := range []int{1, 2, 3, 5, 7, 9, 15, 17, 31, 33, 63, 65, 71, 73, 100, 127, 129, 255, 257, 263, 500, 511} {
+		list = append(list, ty(tlbrun.KBits, n))
+	}
+	odd := func(n int) int { // a width that is not a whole number of bytes
+		if n%8 == 0 {
+			return n + 1
+		}
+		return n
+	}
+	keys := []int{1, 2, 7, 8, 9, 15, 16, 17, 32, 33, 63, 64, 72, 80, 96, 104, 128, 256, 264, 504, 512}
+	if seed == tlbFullGridSeed {
+		keys = nil
+		for n := 1; n <= 64; n++ {
+			keys = append(keys, n)
+		}
+		for n := 72; n <= 512; n += 8 {
+			keys = append(keys, n)
+		}
+	}
+	for i, n := range keys {
+		var v *tlbrun.Type
+		switch i % 8 {
+		case 0:
+			v = ty(tlbrun.KUint, 1+n%64)
+		case 1:
+			v = ty(tlbrun.KInt, 1+(n*7)%64)
+		case 2:
+			v = ty(tlbrun.KBits, 8*(1+n%16))
+		case 3:
+			v = ty(tlbrun.KBits, odd(1+n%61))
+		case 4:
+			v = ty(tlbrun.KUint, 65+n%190)
+		case 5:
+			v = ty(tlbrun.KInt, 65+(n*3)%193)
+		case 6:
+			v = ty(tlbrun.KVarUint, 1+n%32)
+		default:
+			v = ty(tlbrun.KNat, 1+n%32)
+		}
+		list = append(list, &tlbrun.Type{Kind: tlbrun.KDict, N: n, Args: []*tlbrun.Type{v}})
+	}
+	out := packGrid(list, true)
+	out.seed = seed
+	return out
+}
+
+// packGrid packs the fields into declarations that fit a cell.
+func packGrid(list []*tlbrun.Type, builtins bool) *tbSchema {
 	empty, _ := tlbrun.NewSchema(nil)
 	var types []*tlbrun.TypeDef
 	var cur *tlbrun.Ctor
@@ -506,18 +654,25 @@ func gridTLBSchema() *tbSchema {
 	if err != nil {
 		panic("c09: grid schema: " + err.Error())
 	}
-	out := &tbSchema{seed: 0, sch: sch, text: sch.String(), nDecl: len(types), feats: map[string]int{}, grid: true}
+	out := &tbSchema{seed: 0, sch: sch, text: sch.String(), nDecl: len(types), feats: map[string]int{}, grid: true, builtins: builtins}
 	classifyTLB(sch, out.feats)
 	return out
 }
 
 // drawTLBSchema draws a schema of 1..25 declarations. Seed 0 is the enumerated grid of widths.
-func drawTLBSchema(seed uint64) *tbSchema {
+func drawTLBSchema(seed uint64) *tbSchema { return drawTLBSchemaMode(seed, false) }
+
+// drawTLBSchemaMode: with builtins set, the schema is one of those that are compiled with generated
+// built-in types; its widths are drawn freely and seed 0 is the larger grid gridBuiltinsSchema.
+func drawTLBSchemaMode(seed uint64, builtins bool) *tbSchema {
+	if builtins && (seed == 0 || seed == tlbFullGridSeed) {
+		return gridBuiltinsSchema(seed)
+	}
 	if seed == 0 {
 		return gridTLBSchema()
 	}
-	out := &tbSchema{seed: seed, feats: map[string]int{}}
-	g := &tbGen{r: tlbrun.NewRand(seed), out: out, depth: map[string]int{}, held: tbHeld(), loose: map[string]bool{}}
+	out := &tbSchema{seed: seed, feats: map[string]int{}, builtins: builtins}
+	g := &tbGen{r: tlbrun.NewRand(seed), out: out, depth: map[string]int{}, held: tbHeld(), loose: map[string]bool{}, any: builtins}
 	g.rebuild()
 	prefix := tbPrefixes[g.r.Intn(len(tbPrefixes))]
 	total := 1 + g.r.Intn(25)
